@@ -3,7 +3,7 @@
 import ast
 
 from ..absint import Interp, Obj, Opaque, Raised
-from ..astutil import call_attr, call_recv, calls_in, norm, walk_own
+from ..astutil import call_name, call_attr, call_recv, calls_in, norm, walk_own
 from ..cfg import build_cfg
 from ..rules import calling, fn_cfg, k1_before, k2_unreachable, need
 from ..selftest import Mutant
@@ -29,6 +29,8 @@ R4 (K1) Branch.generate_revision_history raises DivergedBranches before set_last
    is not an ancestor of the new tip.
 R8 (K7) every InterBranch implementation in branch.py and git/branch.py substitutes the full aspect set only under
    `overwrite is True`, and no push/pull entry point lets a divergence check hang on the bare truth value of overwrite.
+R9 (fourth round) every ref-update callback (nested function taking the advertised refs) passes remote_divergence an old value taken from
+   that parameter, not from the enclosing scope.
 Does not decide: that revno equals the length of the left-hand history for all DAGs (graph arithmetic).
 """
 ASSUMPTIONS = ["graph.heads() returns the heads of the given revisions (vcsgraph)"]
@@ -190,9 +192,26 @@ def run(ctx):
                 if q.endswith(".set_last_revision_info"):
                     sibs.append(f"{rel}:{q}")
     ctx.extra["set_last_revision_info_overrides"] = sibs
-
+    # ---- R9: a ref-update callback judges divergence against the refs the server sent in this conversation --------------
+    n_cb = 0
+    for rel_ in ("breezy/git/branch.py", "breezy/git/interrepo.py", "breezy/git/remote.py"):
+        for outer_q, outer in repo.module(rel_).functions().items():
+            for cb in (d for d in ast.walk(outer) if isinstance(d, ast.FunctionDef) and d is not outer and d.args.args):
+                divs = [c for c in ast.walk(cb) if isinstance(c, ast.Call) and (call_name(c) or norm(c.func)).split(".")[-1] == "remote_divergence" and c.args]
+                if not divs:
+                    continue
+                refs_param = cb.args.args[0].arg
+                for c in divs:
+                    n_cb += 1
+                    a0 = c.args[0]
+                    local_src = [a.value for a in ast.walk(cb) if isinstance(a, ast.Assign) and isinstance(a0, ast.Name) and any(norm(t) == a0.id for t in a.targets)]
+                    exprs = local_src if isinstance(a0, ast.Name) else [a0]
+                    from_param = bool(exprs) and all(any(isinstance(n_, ast.Name) and n_.id == refs_param for n_ in ast.walk(e)) for e in exprs)
+                    ctx.check("R9-divergence-against-advertised-refs", f"{rel_}:{outer_q}.{cb.name}", from_param, f"the old value given to remote_divergence comes from `{refs_param}`, the refs the server advertised in this conversation", construct=norm(c)[:90], message=f"{outer_q}.{cb.name} compares the new tip with `{norm(a0)}`, which is not taken from `{refs_param}` (the refs advertised by the server in this send-pack conversation) but from the enclosing scope — a ref listing cached earlier: when somebody else advanced the remote branch in between, the divergence is not seen and the remote tip is replaced without --overwrite")
+    ctx.require(n_cb >= 4, f"only {n_cb} ref-update callbacks with a divergence test found (hand-confirmed: 4)")
 
 MUTANTS = [
+    Mutant("remote git push judges divergence by the cached ref", "breezy/git/remote.py", "            old_sha = remote_refs.get(actual_refname)\n            if not overwrite and remote_divergence(", "            if not overwrite and remote_divergence(", expect="R9-divergence-against-advertised-refs"),
     Mutant("git pull expands any non-set overwrite to the full aspect set", "breezy/git/branch.py", "        if local:\n            raise errors.LocalRequiresBoundBranch()\n        if overwrite is True:\n            overwrite = {\"history\", \"tags\"}\n        elif not overwrite:\n            overwrite = set()\n", "        if local:\n            raise errors.LocalRequiresBoundBranch()\n        if not isinstance(overwrite, (set, frozenset)):\n            overwrite = {\"history\", \"tags\"} if overwrite else set()\n", expect="R8-overwrite-aspects-uniform"),
     Mutant("remote git push decides divergence on the truth value of overwrite", "breezy/git/branch.py", "            if \"history\" not in overwrite and remote_divergence(", "            if not overwrite and remote_divergence(", expect="R8-overwrite-aspects-uniform"),
     Mutant("push hands the whole aspect set to _update_revisions", BR, "            self._update_revisions(\n                stop_revision, overwrite=(\"history\" in overwrite), graph=graph\n            )\n        if self.source._push_should_merge_tags():", "            self._update_revisions(stop_revision, overwrite=overwrite, graph=graph)\n        if self.source._push_should_merge_tags():", expect="R6-overwrite-history-only"),
